@@ -1,6 +1,7 @@
 /* mc/h_grow.c — C18 harness: threads of one instance family (generated mNewChild) grow / query / access one
  * shared memory.  Harness words: one word per thread, operations separated by '.':
  *   g<delta>  memory.grow delta      z  memory.size      w<addr>  i32.store addr <- unique value      r<addr>  i32.load addr
+ *   f<addr>  memory.fill addr..addr+3      c<addr>  memory.copy addr <- addr+8 (4 bytes)
  * Observation log: "T<id> i <k> <op>" when operation k of that thread is invoked (right after its
  * scheduling point) and "T<id> r <k> <op> <result>" when it returns: the log order is the real-time order. */
 #include <stdlib.h>
@@ -46,6 +47,10 @@ static void* body(void* a) {
         case 'z': { U32 r = m_size(p->inst); mc_obs("r %d z0 %u", k, r); break; }
         case 'w': { U32 v = 0x1000u * (U32)p->id + (U32)k + 1u; m_store(p->inst, o.arg, v); mc_obs("r %d w%u %u", k, o.arg, v); break; }
         case 'r': { U32 r = m_load(p->inst, o.arg); mc_obs("r %d r%u %u", k, o.arg, r); break; }
+        /* bulk operations on the thread's own cells: f = memory.fill of the 4 bytes of a cell (counts as a store of b*0x01010101),
+           c = memory.copy of the cell 8 bytes further up onto this cell */
+        case 'f': { U32 b = (0x10u * (U32)p->id + (U32)k + 1u) & 0xffu; m_fill(p->inst, o.arg, b, 4); mc_obs("r %d f%u %u", k, o.arg, b * 0x01010101u); break; }
+        case 'c': { m_copy(p->inst, o.arg, o.arg + 8, 4); mc_obs("r %d c%u 0", k, o.arg); break; }
         default: mc_fail("bad op %c", o.kind);
         }
     }
